@@ -263,6 +263,10 @@ func genSeq(r *rand.Rand, tcp bool) *Case {
 	c := &Case{TCP: tcp, RtCtx: genRtCtx(r), Debug: r.Intn(6) == 0}
 	c.Registry, c.DefaultMT = genRegistry(r)
 	c.Calls = []Call{genCall(r, c.Registry, tcp, "")}
+	if r.Intn(10) == 0 {
+		c.BasePath = genBasePath(r)
+	}
+	c.Adapter = r.Intn(10) == 0
 	return c
 }
 
@@ -288,6 +292,19 @@ func genConc(r *rand.Rand, tcp bool) *Case {
 		}
 		call.Rounds = 1 + r.Intn(2)
 		c.Calls = append(c.Calls, call)
+	}
+	// configurations of the shared Runtime and of the callers that only concurrent FIRST calls can tell apart
+	if r.Intn(5) < 2 {
+		c.BasePath = genBasePath(r) // assigned after client.New, mostly without a leading slash
+	}
+	c.Debug = r.Intn(8) == 0
+	c.Adapter = r.Intn(8) == 0
+	if r.Intn(4) == 0 {
+		// one operation value submitted by every goroutine: all calls repeat the operation-level settings of the first
+		c.Conc.SharedOp = true
+		for i := range c.Calls {
+			c.Calls[i].OpClient, c.Calls[i].OpCtx, c.Calls[i].Timeout = c.Calls[0].OpClient, c.Calls[0].OpCtx, c.Calls[0].Timeout
+		}
 	}
 	return c
 }
@@ -315,6 +332,8 @@ func run(m *mon.M) {
 	nseqTCP := m.N(60, 1500)
 	nconc := m.N(40, 600)
 	nconcTCP := m.N(3, 30)
+	nsteps := m.N(500, 6000)
+	nstepsTCP := m.N(20, 400)
 	// concurrent runs first and interleaved with sequential ones, so that a worker killed by a
 	// runtime fatal error leaves the concurrent case on disk
 	seqPerConc := nseq / (nconc + 1)
@@ -330,6 +349,13 @@ func run(m *mon.M) {
 	}
 	for i := 0; i < nseqTCP; i++ {
 		s := genSeq(r, true)
+		m.Begin(s)
+		runCase(m, s)
+	}
+	// sequences of calls: registry, default type and Runtime.Context changed between the calls; operation values submitted again
+	rs := m.Rand("steps")
+	for i := 0; i < nsteps+nstepsTCP; i++ {
+		s := genSteps(rs, i >= nsteps)
 		m.Begin(s)
 		runCase(m, s)
 	}
